@@ -57,9 +57,25 @@ def carriers(df, tc, st, use_u):
 
 
 def gen(seed, tier):
+    import props.C10 as c10
     g = Gen(seed * 1000003 + 11)
     r = g.r
     cases = []
+    # Comm-B rich histories: capability, advert, then valid registers incl. ones that satisfy two registers' rules
+    for i in range(40 if tier == "quick" else 400):
+        icao = r.choice(ICAOS)
+        o = {}
+        if r.random() < 0.5:
+            o["U"] = 1
+        if r.random() < 0.3:
+            o["R"] = 1
+        segs = [seg(0, [g.f_df11(icao, ca=5)]), seg(0, [g.f_df17(icao, g.me_velocity(1))]),
+                seg(0, [g.f_long(20, icao, None, bds17([9, 16, 24]))])]
+        for _ in range(r.randint(2, 6)):
+            k = r.random()
+            m = c10.ambiguous_50_60(g) if k < 0.3 else c10.clean_reg(g, r.choice(["40", "50", "60"]))
+            segs.append(seg(0, [g.f_long(r.choice([20, 21]), icao, None, m)]))
+        cases.append(H("C11-b%d" % i, o, segs))
     n = 220 if tier == "quick" else 2500
     for i in range(n):
         pool = r.sample(ICAOS, r.randint(1, 4))
